@@ -119,6 +119,28 @@ func (r *Rcv) GenPtr(n int) (_ «Iter[int]») {
 	return vrt.V(%[6]d, sum+len(strs))
 }
 
+func UseRebind(a, b int) int {
+	it := (Rcv{100}).Gen(a)
+	next := func() bool { return it.MoveNext() } // pull helpers over an iterator variable ...
+	cur := func() int { return it.Current() }
+	sum := 0
+	if next() {
+		sum = cur()
+	}
+	it, limit := (Rcv{200}).Gen(b), 2 // ... that a redeclaring ':=' rebinds
+	for v := range «RANGE(it)» {
+		sum = sum*10 + v
+		limit--
+		if limit == 0 {
+			break
+		}
+	}
+	for next() {
+		sum = sum*10 + cur()
+	}
+	return vrt.V(%[10]d, sum)
+}
+
 func UseNested(a, b int) int {
 	total := 0
 	for v := range «RANGE((Rcv{a}).Gen(3))» {
@@ -136,12 +158,13 @@ func UseNested(a, b int) int {
 	}
 	return vrt.V(%[9]d, total)
 }
-`, k1, k3, k2-1, tag(), brk, tag(), tag(), k1-1, tag())
+`, k1, k3, k2-1, tag(), brk, tag(), tag(), k1-1, tag(), tag())
 	src = []string{common, genSrc, users}
 	ref = []string{common, genRef, users}
 	small := []int{-1, 0, 1, 2, 3, 5}
 	funcs = []*Func{
 		{Name: "UseTypes", Params: []string{"a", "b"}, Args: [][]int{small, small}, Feat: []string{"iterator_in_struct_map_slice_closure_typearg", "generic_generator", "method_generator", "mixed_pull_and_range_on_one_iterator"}},
+		{Name: "UseRebind", Params: []string{"a", "b"}, Args: [][]int{small, small}, Feat: []string{"pull_helper_closures_over_rebound_iterator_variable"}},
 		{Name: "UseNested", Params: []string{"a", "b"}, Args: [][]int{small, small}, Feat: []string{"nested_consumer_ranges"}},
 	}
 	return
@@ -244,6 +267,43 @@ func ByLoopShared(a, b int) int {
 	return vrt.V(%[8]d, sum*100+first())
 }
 
+func ByOuterWrite(a, b int) int {
+	p := &cell{a}
+	mk := func() func() int {
+		return func() int { return p.Get() } // the literal stands in an inner function ...
+	}
+	g := mk()
+	p = &cell{b * 10} // ... the receiver is rebound in the outer one
+	q := &cell{a + 2}
+	var h func() int
+	func() {
+		h = func() int { return q.Get() }
+	}()
+	func() {
+		q = &cell{b + 3} // rebound in a sibling closure
+	}()
+	return vrt.V(%[9]d, g()*100+h())
+}
+
+// the consumer writes to what it was given and keeps it
+func UseRows(a, b int) int {
+	sum := 0
+	var kept [][]int
+	for row := range «RANGE(optRows(3))» {
+		sum = sum*10 + row[0]
+		row[0] += a + 1
+		kept = append(kept, row)
+	}
+	for m := range «RANGE(optMaps(2))» {
+		sum = sum*10 + m[1]
+		m[1] += b + 1
+	}
+	for _, row := range kept {
+		sum += row[0]
+	}
+	return vrt.V(%[10]d, sum)
+}
+
 func ByBuiltins(a, b int) int {
 	l := func(s string) int { return len(s) }
 	cv := func(x int) int64 { return int64(x) }
@@ -253,8 +313,22 @@ func ByBuiltins(a, b int) int {
 	xs := ap(nil, a)
 	return vrt.V(%[6]d, l("abc")+int(cv(a))+id(b)+pk()+len(xs)+pinit+mb.OnesCount(uint(a+8)))
 }
-`, k1, k2, k3, tag(), tag(), tag(), tag(), tag())
-	genSrc := fmt.Sprintf(`func OptLoopCond(a, b int) «Iter[int]» {
+`, k1, k2, k3, tag(), tag(), tag(), tag(), tag(), tag(), tag())
+	genSrc := fmt.Sprintf(`func optRows(n int) «Iter[[]int]» {
+	for i := 0; i < n; i++ {
+		«Yield»([]int{0, 0}) // an all-literal slice: a fresh one per iteration
+	}
+	return nil
+}
+
+func optMaps(n int) «Iter[map[int]int]» {
+	for i := 0; i < n; i++ {
+		«Yield»(map[int]int{1: 0})
+	}
+	return nil
+}
+
+func OptLoopCond(a, b int) «Iter[int]» {
 	n := 0
 	p := func() bool { return n < a }
 	for p() { // the condition is a call of a variable reassigned in the body
@@ -315,6 +389,8 @@ func OptDelay(a, b int) (_ «Iter[int]») {
 }
 `, tag(), tag(), k2)
 	genRef := strings.NewReplacer(
+		"func optRows(n int) «Iter[[]int]» {\n", "func optRows(n int) «Iter[[]int]» {\n\treturn refco.Go(func(ʏ *refco.Y[[]int]) {\n",
+		"func optMaps(n int) «Iter[map[int]int]» {\n", "func optMaps(n int) «Iter[map[int]int]» {\n\treturn refco.Go(func(ʏ *refco.Y[map[int]int]) {\n",
 		"func OptLoopCond(a, b int) «Iter[int]» {\n", "func OptLoopCond(a, b int) «Iter[int]» {\n\treturn refco.Go(func(ʏ *refco.Y[int]) {\n",
 		"func OptEtaInGen(a, b int) «Iter[int]» {\n", "func OptEtaInGen(a, b int) «Iter[int]» {\n\treturn refco.Go(func(ʏ *refco.Y[int]) {\n",
 		"func OptDelay(a, b int) (_ «Iter[int]») {\n", "func OptDelay(a, b int) «Iter[int]» {\n\treturn refco.Go(func(ʏ *refco.Y[int]) {\n",
@@ -332,6 +408,8 @@ func OptDelay(a, b int) (_ «Iter[int]») {
 		mk("ByMethodValue", false, "eta_shape_callee_method_value"),
 		mk("ByRedeclare", false, "eta_shape_receiver_rebound_by_redeclaring_define"),
 		mk("ByLoopShared", false, "eta_shape_in_loop_sharing_a_variable_written_before_the_literal"),
+		mk("ByOuterWrite", false, "eta_shape_receiver_rebound_in_another_function"),
+		mk("UseRows", false, "yield_of_all_literal_slice_and_map_consumer_mutates"),
 		mk("ByBuiltins", false, "eta_shape_callee_builtin_conversion_generic", "import_used_only_by_bystander", "import_blank", "import_renamed"),
 		mk("OptLoopCond", true, "loop_condition_calls_reassigned_variable"),
 		mk("OptEtaInGen", true, "eta_shape_inside_generator", "import_used_only_by_generator_code", "import_dot"),
